@@ -22,6 +22,8 @@ def run(ctx):
         t = progs.render(p)
         sig0 = dict(semcheck.triggers(p))
         sig0["has_ad"] = bool(p["ads"])
+        adh = {h["atom"]["f"] for ad in p["ads"] for h in ad["heads"]}
+        sig0["ad_head_in_conj"] = any(len(r_["body"]) >= 2 and any(l["atom"]["f"] in adh for l in r_["body"]) for r_ in p["rules"])
         if not j["valid"] or not j["mustAnswer"] or j["undefPreds"]:
             skipped["not_must_answer"] += 1
             continue
